@@ -165,6 +165,11 @@ def expand(expr, fn, max_depth=8, _defs=None, _seen=None):
             ds = defs.get(node.id, [])
             if len(ds) == 1 and ds[0].kind == "assign" and isinstance(ds[0].value, ast.AST) and node.id not in seen and len(seen) < max_depth:
                 return expand(ds[0].value, fn, max_depth, defs, seen | {node.id})
+            # bound in several places, every time to the same expression (`raw = src.readline()` in two loops)
+            if len(ds) > 1 and all(d.kind == "assign" and isinstance(d.value, ast.AST) for d in ds) and node.id not in seen and len(seen) < max_depth:
+                texts = {ast.unparse(d.value) for d in ds}
+                if len(texts) == 1 and not any(isinstance(x, ast.Name) and x.id == node.id for x in ast.walk(ds[0].value)):
+                    return expand(ds[0].value, fn, max_depth, defs, seen | {node.id})
             return node
 
         def visit_Lambda(self, node):
